@@ -15,9 +15,16 @@ Theorem C04_sq_exactly_once_unmodified : sq_exactly_once_unmodified.
 Proof. exact sq_exactly_once_unmodified_holds. Qed.
 
 (** Every payload handed to [add] is published, parked on the blocked list (the operation
-    waits), or still to be added: nothing is dropped, nothing is duplicated. *)
+    waits), abandoned because its fill closure panicked, or still to be added: nothing is
+    dropped silently, nothing is duplicated. *)
 Theorem C04_sq_every_add_accounted : sq_every_add_accounted.
 Proof. exact sq_every_add_accounted_holds. Qed.
+
+(** A submission whose fill closure panicked inside [add] (after the slot was reset; the lock
+    is released by unwinding) is never published: it is not accepted and the kernel never
+    reads it. *)
+Theorem C04_sq_panicked_never_published : sq_panicked_never_published.
+Proof. exact sq_panicked_never_published_holds. Qed.
 
 (** No step of any thread touches a slot between the kernel's head and the tail. *)
 Theorem C04_sq_never_overwrites_pending : sq_never_overwrites_pending.
@@ -38,6 +45,7 @@ Proof. exact h1_overrun_refuted. Qed.
 
 Check C04_sq_exactly_once_unmodified : sq_exactly_once_unmodified.
 Check C04_sq_every_add_accounted : sq_every_add_accounted.
+Check C04_sq_panicked_never_published : sq_panicked_never_published.
 Check C04_sq_never_overwrites_pending : sq_never_overwrites_pending.
 Check C04_sq_drained_means_all_delivered : sq_drained_means_all_delivered.
 Check (C04_sq_exactly_once_unmodified :
@@ -50,7 +58,13 @@ Check (C04_sq_exactly_once_unmodified :
 Check (C04_sq_every_add_accounted :
   forall n m h0 progs es, params_ok n m h0 ->
     let s := fst (run step (init n h0 progs) es) in
-    Permutation (g_accepted s ++ blocked s ++ concat (map todo (threads s))) (concat progs)).
+    Permutation (g_accepted s ++ blocked s ++ panicked s ++ concat (map todo (threads s)))
+                (concat progs)).
+Check (C04_sq_panicked_never_published :
+  forall n m h0 progs es, params_ok n m h0 ->
+    let s := fst (run step (init n h0 progs) es) in
+    forall p, In p (panicked s) -> NoDup (concat progs) ->
+      ~ In p (g_accepted s) /\ ~ In (Entry p) (consumed s)).
 Check (C04_sq_never_overwrites_pending :
   forall n m h0 s i j, params_ok n m h0 -> Inv n h0 s ->
     g_h s <= j -> j < g_t s ->
@@ -60,6 +74,7 @@ Check (C04_sq_drained_means_all_delivered :
     consumed s = map Entry (g_accepted s)).
 Print Assumptions C04_sq_exactly_once_unmodified.
 Print Assumptions C04_sq_every_add_accounted.
+Print Assumptions C04_sq_panicked_never_published.
 Print Assumptions C04_sq_never_overwrites_pending.
 Print Assumptions C04_sq_drained_means_all_delivered.
 Print Assumptions C04_h1_overrun_refuted.
